@@ -70,13 +70,20 @@ class NumpyShim:
             return SBV(z3.BitVecVal(int(x), bits), bits, signed)
         return None
 
-    def uint64(self, x=0):
-        r = self._scalar(x, 64, False)
-        return r if r is not None else _np.uint64(x)
+    def enable_scalar_ctors(self):
+        """np.uint64(x) / np.int64(x) of symbolic values -> 64-bit vectors.  Off by default because the wrappers are not the
+        numpy type objects (code that compares `arr.dtype.type is np.uint64` needs the real ones)."""
+        shim = self
 
-    def int64(self, x=0):
-        r = self._scalar(x, 64, True)
-        return r if r is not None else _np.int64(x)
+        class _Ctor:
+            def __init__(self, real, bits, signed):
+                self._np_type, self.bits, self.signed = real, bits, signed
+
+            def __call__(self, x=0):
+                r = shim._scalar(x, self.bits, self.signed)
+                return r if r is not None else self._np_type(x)
+        self.__dict__["uint64"] = _Ctor(_np.uint64, 64, False)
+        self.__dict__["int64"] = _Ctor(_np.int64, 64, True)
 
     # -- constructors -----------------------------------------------------
     def zeros(self, shape, dtype=None, **kw):
